@@ -733,6 +733,10 @@ func (r *Run) execLib(op *OpDesc, c *Call) []*Violation {
 		}
 		if op.FieldNine && (r.armed("C09") || r.armed("C20")) {
 			if v := r.oracleC09(op, c, pre, post); v != nil {
+				if r.armed("C20") {
+					// each build is anchored to GF(p), not only to the other build
+					v.Prop = "C20"
+				}
 				add(v)
 			}
 		}
@@ -917,6 +921,9 @@ func (r *Run) stateInvariants(op *OpDesc, c *Call, pre, post *Snap, failed bool)
 			}
 		}
 		raw := post.P[i]
+		if failed && op.Recv == KPoint && i == c.R {
+			continue // a setter that reported an error: the receiver is C14's business
+		}
 		r.ev("C12")
 		st.Inc("oracle/C12")
 		for _, l := range []alpha.Limbs{raw.X, raw.Y, raw.Z, raw.T} {
@@ -1147,7 +1154,16 @@ func (r *Run) checkEncoding(i int, raw alpha.PointRaw, what string) *Violation {
 			fmt.Sprintf("P%d: Bytes() = %x, canonical encoding of its own coordinates is %x (X=%x Y=%x Z=%x)", i, got, want[:], raw.X, raw.Y, raw.Z))
 	}
 	// round trip
-	q, err := new(edwards25519.Point).SetBytes(got)
+	var q *edwards25519.Point
+	var err error
+	func() {
+		defer func() {
+			if x := recover(); x != nil {
+				err = fmt.Errorf("panic: %v", x)
+			}
+		}()
+		q, err = new(edwards25519.Point).SetBytes(got)
+	}()
 	if err != nil || q == nil {
 		return r.viol("C05", "encoding-does-not-decode", what, fmt.Sprintf("P%d: SetBytes(Bytes()) failed: %v", i, err))
 	}
@@ -1543,7 +1559,6 @@ func sortedKeys(m map[string]int64) []string {
 // ValueDigestPoint is the representation-independent description of a point
 // (exported for the task scheduler's sequential-equivalence oracle).
 func ValueDigestPoint(raw alpha.PointRaw) string { return valueDigestPoint(raw) }
-
 
 // recodingCoverage records which (position, digit) pairs of the scalar
 // recodings a checked scalar multiplication went through. The recodings are
